@@ -1,8 +1,8 @@
 ---- MODULE Lazy_Trace ----
 (* monitor: recorded lazy-loader sessions (open, dependency queries, loads in some order) judged by Lazy *)
 EXTENDS Lazy, TLC, Json, IOUtils
-VARIABLES l, P, nClean, nTaint, taint   \* taint: an earlier load of this session went through the known re-entrancy (the loader's
-                         \* shared stream and tables are then in an undefined state for the rest of the session)
+VARIABLES l, P, nClean, nTaint, taint   \* nClean: loads judged; (nTaint, taint: unused since the re-entrancy defect F-10a was repaired -
+                         \* every load, whatever it traverses, is judged in full)
 TraceLog == ndJsonDeserialize(IOEnv.TRACE)
 Ev == TraceLog[l]
 Report(what, dev) == PrintT("@@CASE " \o ToJson([line |-> l, what |-> what, dev |-> dev, ev |-> Ev]))
@@ -21,21 +21,18 @@ TDeps == /\ Step("Deps") /\ UNCHANGED <<P, taint, nClean, nTaint>>
          /\ LET got == {Ev.set[i] : i \in 1..Len(Ev.set)} IN
             (got \ {Ev.id} # Deps(P, Ev.id) \ {Ev.id}) => Report("deps", "")
 (* loading yields the eagerly read object (same serialisation); inverse attributes hold exactly the referrers *)
-Reenters(id) == id \in IdsOf(P) /\ (ReachesCycle(P, id) \/ NestedInverseResolution(P, id) \/ CandidateReentry(P, id))
-TLoad == /\ Step("Load") /\ UNCHANGED P /\ taint' = (taint \/ Reenters(Ev.id))
+TLoad == /\ Step("Load") /\ UNCHANGED P /\ taint' = FALSE
          /\ nClean' = nClean + (IF taint' THEN 0 ELSE 1) /\ nTaint' = nTaint + (IF taint' THEN 1 ELSE 0)
-         /\ (~Ev.ok \/ ~Ev.same) => Report("load-differs", IF taint' THEN "Dev_RegisterAfterRead" ELSE "")
+         /\ (~Ev.ok \/ ~Ev.same) => Report("load-differs", "")
          /\ Ev.ok => \A d \in InvDecl(Inst(P, Ev.id).ty) :
                LET got == IF \E k \in 1..Len(Ev.inv) : Ev.inv[k].name = d.name
                           THEN (LET k == CHOOSE k \in 1..Len(Ev.inv) : Ev.inv[k].name = d.name IN Ev.inv[k].ids) ELSE <<>>
                    want == Referrers(P, Ev.id, d)
                IN (Range(got) # want \/ Len(got) # Cardinality(want)) =>
-                     Report("inverse:" \o d.name,
-                            IF taint' THEN "Dev_RegisterAfterRead" ELSE "")
-(* the loader died (signal) or ran away while loading: explained only by the known re-entrancy when the load *)
-(* has to traverse a reference cycle                                                                          *)
+                     Report("inverse:" \o d.name, "")
+(* the loader died (signal) or ran away while loading *)
 TCrash == /\ Step("Crash") /\ UNCHANGED <<P, taint, nClean, nTaint>>
-          /\ Report("crash", IF taint \/ Reenters(Ev.id) THEN "Dev_RegisterAfterRead" ELSE "")
+          /\ Report("crash", "")
 (* end of record: report how many loads were judged in full and how many fell under the known re-entrancy *)
 TEnd == Step("End") /\ UNCHANGED <<P, taint, nClean, nTaint>>
         /\ PrintT("@@CASE " \o ToJson([line |-> l, what |-> "stats", dev |-> "", ev |-> [clean |-> nClean, tainted |-> nTaint]]))
